@@ -1,3 +1,346 @@
-INVARIANT_TEXT = "stub"
-def bounds_text(tier): return "stub"
-def harnesses(E, tier): return []
+"""C03 harnesses: one inductive step of ObjectHashMap (runtime/waitlists.rs), capacity 8.
+
+Slots are fully symbolic: each key is a 64-bit symbol (0 = EMPTY, 1 = DELETED, > 1 live), values are symbolic
+u64, `entries`, the table's gc epoch and the runtime's epoch are symbols."""
+import z3
+
+from ..common import Inconclusive
+from ..mir import models_gc as G
+from ..mir.interp import Cell, Int, Opaque, Ref, Tup
+from ..mir.models import deref
+from .c03 import H, RT
+from .c03_units import U, addr_t, bv, ule, ult, num
+
+WL = RT + "runtime/waitlists.rs"
+CAP = 8
+
+INVARIANT_TEXT = (
+    "Inv(T), capacity N = 8 (EMPTY = key 0, DELETED = key 1, live = key > 1; home(k) = k & (N-1)): "
+    "(I1) capacity == data.len() == N; "
+    "(I2) entries == number of live slots; "
+    "(I3) live keys are pairwise distinct; "
+    "(I4) probe chains are unbroken: for every live slot i no slot on the cyclic walk home(key_i), home+1, .., i-1 is EMPTY; "
+    "(I5) entries <= N - N/4 (= 6; overflow() makes insert rehash to a larger table before a 7th entry); "
+    "(I6) at least one slot is EMPTY (probing for an absent key terminates); "
+    "real callers (family A): every live key and every argument key is the address of a heap object: a multiple of 8 and >= 8, hence home == 0 at capacity 8, and "
+    "(I7) the non-EMPTY slots form a prefix 0..n-1 of the table with (I8) n <= 6.  I1-I8 is inductive under get / insert (entries <= 5, no rehash) / remove (entries >= 2, no rehash) "
+    "and is re-established by rehash (epoch change from ANY state with I2, I3, I5 and aligned keys: keys rewritten in place by the collector; underflow; overflow to capacity 16, checked with I1-I6 at N = 16). "
+    "Family B (arbitrary, unaligned keys, all 8 home slots, wrap-around): from I1-I6 one step gives I1-I5 and the functional result, but NOT I6: "
+    "overflow() counts live entries only, so tombstones can use up the last EMPTY slot (6 live + 2 DELETED at capacity 8); with 8-aligned keys this needs capacity >= 16 (homes 0 and 8), which is outside this check. "
+    "Functional step (all families, probe key q universally quantified): get(k) returns Some(v) iff a live slot holds k, with its value, and changes nothing; "
+    "insert(k, v) makes lookup(k) == v, keeps lookup(q) for q != k, entries += [k was absent]; remove(k) returns the old value or None, makes k absent, keeps the rest, entries -= [k was present]; "
+    "a following get(k) returns Some(v) / None / the same result."
+)
+
+
+def bounds_text(tier):
+    nb, nc = limits(tier)
+    return ("capacity 8; family A (8-aligned keys, full invariant): all states; family B (arbitrary keys): at most %d non-EMPTY slots (live or DELETED, at symbolic positions); "
+            "rehash on epoch change: at most %d live entries at symbolic positions, any number of tombstones; underflow rehash (entries < 2) and overflow rehash (entries == 6 -> capacity 16): all states of the invariant; "
+            "probing: at most 8 iterations (a longer probe is reported as non-termination)" % (nb, nc))
+
+
+def limits(tier):
+    return (4, 3) if tier == "quick" else (7, 6)
+
+
+def live(k):
+    return z3.UGT(k, bv(1))
+
+
+def cnt(conds):
+    """number of true conditions (at most 16) as a 64-bit term, summed in 8 bits"""
+    one, zero = z3.BitVecVal(1, 8), z3.BitVecVal(0, 8)
+    return z3.ZeroExt(56, z3.Sum([z3.If(c, one, zero) for c in conds])) if conds else bv(0)
+
+
+def present(K, q):
+    return z3.Or(*[k == q for k in K])
+
+
+def value(K, V, q):
+    acc = bv(0)
+    for k, v in zip(reversed(K), reversed(V)):
+        acc = z3.If(k == q, v, acc)
+    return acc
+
+
+def inv_parts(K, n, aligned):
+    """named parts of the invariant for a table with keys K (python list of terms, len N) and entries n"""
+    N = len(K)
+    P = {}
+    P["I2 entries == live slots"] = n == cnt([live(k) for k in K])
+    P["I3 live keys distinct"] = z3.And(*[z3.Implies(z3.And(live(K[i]), live(K[j])), K[i] != K[j]) for i in range(N) for j in range(i + 1, N)])
+    ch = []
+    for i in range(N):
+        dist = (bv(i) - (K[i] & (N - 1))) & (N - 1)
+        for d in range(N - 1):
+            ch.append(z3.Implies(z3.And(live(K[i]), ult(d, dist)), K[(i - 1 - d) % N] != 0))
+    P["I4 probe chains unbroken"] = z3.And(*ch)
+    P["I5 entries <= capacity - capacity/4"] = ule(n, N - N // 4)
+    P["I6 an EMPTY slot exists"] = z3.Or(*[k == 0 for k in K])
+    if aligned:
+        P["I7 non-EMPTY slots form a prefix"] = z3.And(*[z3.Implies(K[i] != 0, K[i - 1] != 0) for i in range(1, N)])
+        P["I8 at most 6 non-EMPTY slots"] = ule(cnt([k != 0 for k in K]), 6)
+        P["live keys are multiples of 8"] = z3.And(*[z3.Implies(live(k), k & 7 == 0) for k in K])
+    return P
+
+
+def harnesses(E, tier):
+    NB, NC = limits(tier)
+    ins = [("k%d" % i, "usize") for i in range(CAP)] + [("v%d" % i, "usize") for i in range(CAP)] + \
+          [("entries", "usize"), ("epoch", "usize"), ("rt", "usize"), ("key", "usize"), ("val", "usize")]
+
+    def KV(I):
+        return [I["k%d" % i] for i in range(CAP)], [I["v%d" % i] for i in range(CAP)]
+
+    def mk(it, I):
+        K, V = KV(I)
+        ents = [E.L.make(WL, "HashMapEntry", key=E.addr(k), value=Int(U(v), "u64")) for k, v in zip(K, V)]
+        tbl = E.L.make(WL, "ObjectHashMap", data=G.mk_box_slice(ents), entries=Int(U(I["entries"]), "usize"),
+                       capacity=Int(CAP, "usize"), gc_epoch=Int(U(I["epoch"]), "usize"))
+        it.hooks["get_runtime"] = lambda it_, ctx_, fn, args: Ref(Cell(Opaque("runtime"), "rt"))
+        it.hooks["Runtime::gc_epoch"] = lambda it_, ctx_, fn, args: Int(U(I["rt"]), "usize")
+        return Cell(tbl, "table")
+
+    fi = lambda n: E.L.index(WL, "ObjectHashMap", n)
+    ei = lambda n: E.L.index(WL, "HashMapEntry", n)
+
+    def read(cell, ctx):
+        t = cell.v
+        els = G.box_elems(t.fields[fi("data")])
+        K2 = [addr_t(e.fields[ei("key")]) for e in els]
+        V2 = []
+        for e in els:
+            v = e.fields[ei("value")]
+            V2.append(v.t if isinstance(v, Int) else ctx.fresh("uninit", "u64").t)
+        return K2, V2, t.fields[fi("entries")].t, t.fields[fi("capacity")].t, t.fields[fi("gc_epoch")].t
+
+    def optval(r):
+        if r.variant == "Some":
+            v = deref(r.fields[0])
+            if not isinstance(v, Int):
+                raise Inconclusive("table value %r" % (v,))
+            return True, v.t
+        return False, bv(0)
+
+    def sym(op):
+        def f(ctx, it, I):
+            cell = mk(it, I)
+            me, k = Ref(cell), E.addr(I["key"])
+            O = {"res_some": False, "res_val": bv(0)}
+            if op == "get":
+                O["res_some"], O["res_val"] = optval(it.call(ctx, "ObjectHashMap::get", [me, k]))
+            elif op == "insert":
+                it.call(ctx, "ObjectHashMap::insert", [me, k, Int(I["val"], "u64")])
+            else:
+                O["res_some"], O["res_val"] = optval(it.call(ctx, "ObjectHashMap::remove", [me, k]))
+            O["get2_some"], O["get2_val"] = optval(it.call(ctx, "ObjectHashMap::get", [me, k]))
+            O["keys"], O["vals"], O["entries"], O["capacity"], O["epoch"] = read(cell, ctx)
+            return O
+        return f
+
+    def nat(op):
+        def cmd(v):
+            slots = ",".join("%d:%d" % (v["k%d" % i], v["v%d" % i]) for i in range(CAP))
+            o = "%s:%d" % (op, v["key"]) + (":%d" % v["val"] if op == "insert" else "")
+            return ["table", slots, v["entries"], v["epoch"], v["rt"], o, "get:%d" % v["key"]]
+
+        def opt(t):
+            return (True, num(t[5:])) if t.startswith("Some:") else (False, 0)
+
+        def parse(r):
+            o = {}
+            o["res_some"], o["res_val"] = opt(r["op0"])
+            o["get2_some"], o["get2_val"] = opt(r["op1"])
+            o["keys"] = [num(x) for x in r["keys"].split(",")]
+            o["vals"] = [0 if x == "-" else num(x) for x in r["values"].split(",")]
+            o["entries"], o["capacity"], o["epoch"] = num(r["entries"]), num(r["capacity"]), num(r["gc_epoch"])
+            return o
+        return cmd, parse
+
+    def functional(op, I, O):
+        K, V = KV(I)
+        K2, V2 = O["keys"], O["vals"]
+        key, val, n = I["key"], I["val"], I["entries"]
+        q = z3.BitVec("q!probe", 64)
+        was = present(K, key)
+        some = O["res_some"]
+        c = []
+        if op in ("get", "remove"):
+            c.append(("%s(k) does not return Some exactly when a live slot holds k" % op, z3.BoolVal(bool(some)) == was))
+            if some:
+                c.append(("%s(k) returns a value that is not the one stored for k" % op, O["res_val"] == value(K, V, key)))
+        if op == "get":
+            pres2 = lambda q: present(K, q)
+            val2 = lambda q: value(K, V, q)
+            n2 = n
+            g2 = ("a second get(k) answers differently", z3.And(z3.BoolVal(O["get2_some"] == some), O["get2_val"] == O["res_val"]))
+        elif op == "insert":
+            pres2 = lambda q: z3.Or(q == key, present(K, q))
+            val2 = lambda q: z3.If(q == key, val, value(K, V, q))
+            n2 = n + z3.If(was, bv(0), bv(1))
+            g2 = ("get(k) after insert(k, v) does not return Some(v)", z3.And(z3.BoolVal(O["get2_some"]), O["get2_val"] == val))
+        else:
+            pres2 = lambda q: z3.And(q != key, present(K, q))
+            val2 = lambda q: value(K, V, q)
+            n2 = n - z3.If(was, bv(1), bv(0))
+            g2 = ("get(k) after remove(k) does not return None", z3.BoolVal(not O["get2_some"]))
+        c.append(("after %s: some key is present that should not be / absent that should be present" % op, z3.Implies(live(q), present(K2, q) == pres2(q))))
+        c.append(("after %s: the value stored for some key changed / is wrong" % op, z3.Implies(z3.And(live(q), present(K2, q)), value(K2, V2, q) == val2(q))))
+        c.append(("after %s: entries is not updated consistently" % op, O["entries"] == n2))
+        c.append(g2)
+        return c
+
+    def post_inv(I, O, aligned, skip=()):
+        P = inv_parts(O["keys"], O["entries"], aligned and len(O["keys"]) == CAP)
+        c = [("I1 capacity field != data.len()", O["capacity"] == len(O["keys"]))]
+        for name, cond in P.items():
+            if not any(name.startswith(s) for s in skip):
+                c.append(("invariant broken after the step: " + name, cond))
+        return c
+
+    def base_spec(op, I, O, what):
+        if O["hang"]:
+            return [("%s: probing does not terminate (more than a full round over the table)" % what, False)]
+        if O["panic"]:
+            return [("%s panics: %s" % (what, O.get("msg", "")[:60]), False)]
+        return None
+
+    def arg_ok(I, aligned):
+        return z3.And(I["key"] & 7 == 0, ule(8, I["key"])) if aligned else live(I["key"])
+
+    def pre_inv(I, aligned):
+        K, _ = KV(I)
+        return z3.And(*inv_parts(K, I["entries"], aligned).values())
+
+    hs = []
+    rng_ops = {"get": lambda I: z3.BoolVal(True), "insert": lambda I: ule(I["entries"], 5), "remove": lambda I: ule(2, I["entries"])}
+
+    # ---- samples for translator validation (any state will do; no full tables: probing would not terminate)
+    def samp(keys, vals, entries, epoch, rt, key, val=77):
+        d = {"entries": entries, "epoch": epoch, "rt": rt, "key": key, "val": val}
+        for i in range(CAP):
+            d["k%d" % i], d["v%d" % i] = keys[i], vals[i]
+        return d
+    T1 = ([16, 24, 1, 32, 0, 0, 0, 0], [1, 2, 0, 3, 0, 0, 0, 0], 3)
+    T2 = ([31, 9, 10, 1, 0, 0, 14, 23], [5, 6, 7, 0, 0, 0, 8, 9], 5)
+    T3 = ([16, 0, 24, 1, 0, 32, 0, 0], [1, 0, 2, 0, 0, 3, 0, 0], 3)
+    T4 = ([16, 1, 0, 0, 0, 0, 0, 0], [4, 0, 0, 0, 0, 0, 0, 0], 1)
+    T5 = ([8, 16, 24, 32, 40, 48, 0, 0], [1, 2, 3, 4, 5, 6, 0, 0], 6)
+    T0 = ([0] * 8, [0] * 8, 0)
+
+    def samples(op):
+        def f(rng):
+            out = []
+            for (k, v, n), keys in ((T1, (32, 40, 16, 24, 48)), (T2, (31, 39, 47, 9, 14)), (T4, (16, 24)), (T0, (64,)), (T5, (56, 8))):
+                for key in keys:
+                    out.append(samp(k, v, n, 3, 3, key))
+            for key in (24, 40, 16, 32):
+                out.append(samp(T3[0], T3[1], T3[2], 1, 2, key))
+            return out
+        return f
+
+    for op in ("get", "insert", "remove"):
+        # family A: 8-aligned keys (real callers), full inductive step
+        def specA(I, O, op=op):
+            b = base_spec(op, I, O, "%s (aligned keys)" % op)
+            if b:
+                return b
+            return functional(op, I, O) + post_inv(I, O, True) + [("capacity changed without a rehash condition", O["capacity"] == CAP), ("gc epoch of the table changed", O["epoch"] == I["epoch"])]
+
+        def twA(I, O, op=op):
+            if O["panic"] or O["hang"]:
+                return []
+            K, _ = KV(I)
+            K2 = O["keys"]
+            t = [("a tombstone precedes the slot of the key", z3.And(K[0] == 1, present(K, I["key"])))]
+            if op == "insert":
+                t += [("insert into the slot of a tombstone", z3.Or(*[z3.And(K[i] == 1, K2[i] == I["key"]) for i in range(CAP)])),
+                      ("insert into an EMPTY slot", z3.Or(*[z3.And(K[i] == 0, K2[i] == I["key"]) for i in range(CAP)])),
+                      ("insert overwrites the value of a present key", present(K, I["key"]))]
+            else:
+                t += [("key found", z3.BoolVal(bool(O["res_some"]))), ("key absent", z3.BoolVal(not O["res_some"]))]
+            return t
+        needA = ["a tombstone precedes the slot of the key"] + (["insert into the slot of a tombstone", "insert into an EMPTY slot", "insert overwrites the value of a present key"]
+                                                                 if op == "insert" else ["key found", "key absent"])
+        hs.append(H("table-A/" + op, "ObjectHashMap::%s (+ is_live/is_deleted/is_empty, maybe_rehash_on_%s, overflow/underflow/invalidated_by_gc)" % (op, op), ins,
+                    lambda I, op=op: z3.And(pre_inv(I, True), arg_ok(I, True), I["epoch"] == I["rt"], rng_ops[op](I)),
+                    sym(op), nat(op), specA, twA, samples(op), need=needA, max_steps=6000, depth=7, qfbv=True))
+
+        # family B: arbitrary keys, every home slot, wrap-around; I6 is assumed, not re-established (see INVARIANT_TEXT)
+        def specB(I, O, op=op):
+            b = base_spec(op, I, O, "%s (arbitrary keys)" % op)
+            if b:
+                return b
+            return functional(op, I, O) + post_inv(I, O, False, skip=("I6",)) + [("capacity changed without a rehash condition", O["capacity"] == CAP),
+                                                                                   ("gc epoch of the table changed", O["epoch"] == I["epoch"])]
+
+        def twB(I, O, op=op):
+            if O["panic"] or O["hang"]:
+                return []
+            K, _ = KV(I)
+            t = [("probe wraps around the end of the table", z3.Or(*[z3.And(K[i] == I["key"], ult(i, I["key"] & 7)) for i in range(CAP)])),
+                 ("key absent", z3.Not(present(K, I["key"])))]
+            if op == "insert":
+                t.append(("insert uses up the last EMPTY slot (I6 not inductive for arbitrary hashes)", z3.And(*[k != 0 for k in O["keys"]])))
+            return t
+        needB = ["probe wraps around the end of the table", "key absent"] + (["insert uses up the last EMPTY slot (I6 not inductive for arbitrary hashes)"] if op == "insert" and NB >= 7 else [])
+        hs.append(H("table-B/" + op, "ObjectHashMap::%s, arbitrary keys" % op, ins,
+                    lambda I, op=op: z3.And(pre_inv(I, False), arg_ok(I, False), I["epoch"] == I["rt"], rng_ops[op](I), ule(cnt([k != 0 for k in KV(I)[0]]), NB)),
+                    sym(op), nat(op), specB, twB, samples(op), need=needB, max_steps=6000, depth=8, qfbv=True))
+
+        # family C: rehash because the collector ran (keys rewritten in place: chains and tombstone placement arbitrary)
+        def preC(I, op=op):
+            K, _ = KV(I)
+            P = inv_parts(K, I["entries"], False)
+            return z3.And(P["I2 entries == live slots"], P["I3 live keys distinct"], ule(I["entries"], NC if op != "insert" else min(NC, 5)),
+                          z3.And(*[z3.Implies(live(k), k & 7 == 0) for k in K]), arg_ok(I, True), I["epoch"] != I["rt"])
+
+        def specC(I, O, op=op):
+            b = base_spec(op, I, O, "%s after a collection" % op)
+            if b:
+                return b
+            c = functional(op, I, O) + post_inv(I, O, True)
+            c.append(("capacity changed", O["capacity"] == CAP))
+            if op == "get":
+                c.append(("table not rehashed for the new epoch", z3.Implies(I["entries"] != 0, z3.And(O["epoch"] == I["rt"], *[k != 1 for k in O["keys"]]))))
+            else:
+                c.append(("table not rehashed for the new epoch", O["epoch"] == I["rt"]))
+            return c
+
+        def twC(I, O, op=op):
+            if O["panic"] or O["hang"]:
+                return []
+            K, _ = KV(I)
+            return [("rehash drops tombstones", z3.And(I["entries"] != 0, z3.Or(*[k == 1 for k in K]))),
+                    ("a live key sits behind an EMPTY slot before the rehash (moved object)", z3.And(K[0] == 0, live(K[1]), present(K, I["key"])))]
+        hs.append(H("table-C/epoch/" + op, "ObjectHashMap::rehash via maybe_rehash_on_%s (epoch changed) + with_capacity + capacity_for_entries" % op, ins, preC,
+                    sym(op), nat(op), specC, twC, samples(op), need=["rehash drops tombstones", "a live key sits behind an EMPTY slot before the rehash (moved object)"],
+                    max_steps=30000, depth=8, qfbv=True))
+
+    # underflow: remove with fewer than capacity/4 entries rebuilds the table (same capacity)
+    def specU(I, O):
+        b = base_spec("remove", I, O, "remove with underflow rehash")
+        if b:
+            return b
+        return functional("remove", I, O) + post_inv(I, O, True) + [("capacity changed", O["capacity"] == CAP), ("tombstones survive the rehash", z3.And(*[k != 1 for k in O["keys"]]))]
+    hs.append(H("table-C/underflow/remove", "ObjectHashMap::remove -> underflow() -> rehash", ins,
+                lambda I: z3.And(pre_inv(I, True), arg_ok(I, True), I["epoch"] == I["rt"], ult(I["entries"], 2)), sym("remove"), nat("remove"), specU,
+                lambda I, O: [] if O["panic"] or O["hang"] else [("last entry removed", z3.BoolVal(bool(O["res_some"]))), ("rehash drops tombstones", z3.Or(*[k == 1 for k in KV(I)[0]]))],
+                samples("remove"), need=["last entry removed", "rehash drops tombstones"], max_steps=30000, depth=8, qfbv=True))
+
+    # overflow: the 7th entry moves the table to capacity 16
+    def specO(I, O):
+        b = base_spec("insert", I, O, "insert with overflow rehash")
+        if b:
+            return b
+        c = functional("insert", I, O) + post_inv(I, O, False)
+        c.append(("table did not grow to capacity 16", O["capacity"] == 16))
+        c.append(("tombstones survive the rehash", z3.And(*[k != 1 for k in O["keys"]])))
+        return c
+    hs.append(H("table-C/overflow/insert", "ObjectHashMap::insert -> overflow() -> rehash(capacity_for_entries(7) == 16)", ins,
+                lambda I: z3.And(pre_inv(I, True), arg_ok(I, True), I["epoch"] == I["rt"], I["entries"] == 6), sym("insert"), nat("insert"), specO,
+                lambda I, O: [] if O["panic"] or O["hang"] else [("a key lands in the upper half (home 8)", z3.Or(*[live(k) for k in O["keys"][8:]])), ("new key", z3.Not(present(KV(I)[0], I["key"])))],
+                samples("insert"), need=["a key lands in the upper half (home 8)", "new key"], max_steps=60000, depth=8, qfbv=True))
+    return hs
